@@ -185,6 +185,19 @@ fn check_family(shape: &Shape, value: &Value, l: &mut Local) -> CaseResult {
         }
         buf[i] = bytes[i];
     }
+    // (c2) length prefixes replaced by huge / just-too-large claims
+    let mut done = 0;
+    for (idx, &(off, len, bits)) in e.varint_spans.iter().enumerate() {
+        if bits != 64 || done >= 4 {
+            continue;
+        }
+        done += 1;
+        let remaining = (bytes.len() - off - len) as u128;
+        for c in [remaining + 1, u64::MAX as u128, u64::MAX as u128 - 1, 1u128 << 63, (1u128 << 63) - 1, (u64::MAX as u128) - remaining, 1u128 << 47] {
+            l.class("huge-length-claim");
+            check_decode(shape, &mutate::replace_varint(&e, idx, c), false, l)?;
+        }
+    }
     // (d) varint re-paddings: up to, at and one past the maximum length
     for (idx, &(_, len, bits)) in e.varint_spans.iter().enumerate().take(24) {
         let max = mutate::max_len(bits);
@@ -394,6 +407,28 @@ pub fn run(ctx: &Ctx) {
             input.push(f);
             input.push(0x2A); // a tail byte that must be left alone
             check_decode(&sh, &input, false, l)
+        });
+    }
+
+    // long payloads: counts that need 3- and 4-byte varints, whole, truncated and padded
+    {
+        let lens: Vec<usize> = vec![16383, 16384, 16385, 20000, 65536, 2097151, 2097152];
+        let lens_ref = &lens;
+        ctx.par_range("long-payloads", lens.len() as u64 * 4, move |i, l| {
+            let n = lens_ref[(i / 4) as usize];
+            let (s, v) = match i % 4 {
+                0 => (Shape::String, Value::Str("y".repeat(n))),
+                1 => (Shape::Bytes, Value::Bytes(vec![0xA5; n])),
+                2 => (Shape::Seq(Box::new(Shape::U8)), Value::List(vec![Value::U(7); n.min(70000)])),
+                _ => (Shape::Tuple(vec![Shape::Str, Shape::U16]), Value::List(vec![Value::Str("z".repeat(n)), Value::U(513)])),
+            };
+            let e = ref_encode(&s, &v).unwrap();
+            check_decode(&s, &e.bytes, true, l)?;
+            check_decode(&s, &e.bytes[..e.bytes.len() - 1], false, l)?;
+            let mut with_tail = e.bytes.clone();
+            with_tail.extend_from_slice(&[1, 2, 3]);
+            check_decode(&s, &with_tail, false, l)?;
+            check_decode(&s, &mutate::repad(&e, 0, 5), false, l)
         });
     }
 
